@@ -6,7 +6,7 @@
    Full-strength statements first; both are FALSE of the faithful model (and of the real checker:
    the witnesses are in corpus/fun/c15-*.sc and are re-confirmed on every run). *)
 From Coq Require Import List String Bool Permutation.
-From SCC Require Import Lang.FunSyn Model.Check Sem.FunTyping Sem.FunErase Proof.CheckWitness Proof.CheckAnn Proof.TypingReject.
+From SCC Require Import Lang.FunSyn Model.Check Sem.FunTyping Sem.FunErase Proof.CheckWitness Proof.CheckAnn Proof.TypingReject Proof.CheckMono Proof.CheckProof.
 Import ListNotations.
 
 (* Soundness, full statement: `forall p q, check p = COk q -> has_type p`.  False: an ill-formed
@@ -32,6 +32,37 @@ Proof.
   split; [exact Hp|]. split; [exact Ha|]. eexists; exact Hr.
 Qed.
 Print Assumptions C15_check_order_dependent_refuted.
+
+(* ---------- partial versions: programs without type parameters and type arguments ----------
+   [mono_prog p] (Proof/CheckMono.v): every data/codata declaration has an empty parameter list,
+   every type written in the program is i64 or a declared name without arguments, every case and
+   destructor call has an empty type-argument list.
+   GAP: for programs WITH type parameters neither direction is proved.  Soundness is false there
+   (witness above; the conjecture is that it holds once the declarations are required to be
+   well-formed, [decls_ok]); completeness of the repaired checker is conjectured.  What is missing is
+   the injectivity of printed instance names ([print_ty]) for identifier-like names and the
+   agreement of HashMap-based substitution with positional instantiation. *)
+Theorem C15_check_sound_partial : forall p q, mono_prog p = true -> check p = COk q -> has_type p.
+Proof. exact check_sound_partial. Qed.
+Print Assumptions C15_check_sound_partial.
+
+(* completeness is false already on this fragment (the witness has no type parameters) ... *)
+Theorem C15_check_complete_in_fragment_refuted :
+  ~ (forall p, mono_prog p = true -> has_type p -> exists q, check p = COk q).
+Proof. exact check_complete_refuted_in_fragment. Qed.
+Print Assumptions C15_check_complete_in_fragment_refuted.
+(* ... and the instance-creation order is the only reason: with the one-line repair (Constructor::check
+   and New::check call expected.check(symbol_table) first; Check.check_repaired) every well-typed
+   program of the fragment is accepted, and the repaired checker is still sound - it decides the
+   typing rules on the fragment. *)
+Theorem C15_check_complete_partial :
+  forall p, mono_prog p = true -> has_type p -> exists q, check_repaired p = COk q.
+Proof. exact check_complete_partial. Qed.
+Print Assumptions C15_check_complete_partial.
+Theorem C15_check_repaired_exact_partial :
+  forall p, mono_prog p = true -> (has_type p <-> exists q, check_repaired p = COk q).
+Proof. exact check_repaired_exact_partial. Qed.
+Print Assumptions C15_check_repaired_exact_partial.
 
 (* ---------- the checked program is the parsed program plus annotations ---------- *)
 (* For every accepted program: the checked definitions are the parsed definitions, in the same
